@@ -540,8 +540,14 @@ def _paths(job, ctx):
     os.makedirs(os.path.join(incdir, "adir"), exist_ok=True)
     _write(fmt, os.path.join(incdir, "ok.inc"), {"x": 5})
     _write(fmt, os.path.join(other, "cwd.inc"), {"x": 6})
+    from mc import core
+    homeinc = os.path.join(core.home_dir(), "c18conf")
+    os.makedirs(homeinc, exist_ok=True)
+    _write(fmt, os.path.join(homeinc, "home.inc"), {"x": 7})
     only = job.get("only")
     forms = [
+        ("relative-home-startdir", "~/c18conf", "home.inc", 7),
+        ("missing-home-startdir", "~/c18conf", "ok.inc", "raise"),
         ("relative-startdir", incdir, "ok.inc", 5), ("absolute", incdir, os.path.join(incdir, "ok.inc"), 5),
         ("absolute-no-startdir", None, os.path.join(incdir, "ok.inc"), 5), ("relative-cwd", None, "cwd.inc", 6),
         ("missing-relative", incdir, "nope.inc", "raise"), ("missing-absolute", incdir, os.path.join(incdir, "nope.inc"), "raise"),
